@@ -172,8 +172,9 @@ func ruleR03R04(c *Ctx) {
 				evSZ
 				evVA
 				evBAD
+				evNS
 			)
-			names := []string{"OVERWRITE", "RELINK", "LINK", "ROOTLINK", "SIZE+", "VALUE", "UNRECOGNISED-TREE-WRITE"}
+			names := []string{"OVERWRITE", "RELINK", "LINK", "ROOTLINK", "SIZE+", "VALUE", "UNRECOGNISED-TREE-WRITE", "NODE-STORE"}
 			// classify statements once
 			evMap := map[ast.Node][]int{}
 			var ovStmts []*ast.AssignStmt
@@ -284,6 +285,45 @@ func ruleR03R04(c *Ctx) {
 					}
 				}
 			}
+			// every other store through a pointer (compressed-path adjustments of the split paths)
+			for _, b := range g.Blocks {
+				if !b.Live {
+					continue
+				}
+				for _, n := range b.Nodes {
+					if _, done := evMap[n]; done {
+						continue
+					}
+					isStore := false
+					switch x := n.(type) {
+					case *ast.AssignStmt:
+						if x.Tok != token.DEFINE {
+							for _, l := range x.Lhs {
+								if _, isId := ast.Unparen(l).(*ast.Ident); !isId {
+									if v, through := rootVar(info, l); v == nil || through {
+										isStore = true
+									}
+								}
+							}
+						}
+					case *ast.IncDecStmt:
+						if v, through := rootVar(info, x.X); v == nil || through {
+							isStore = true
+						}
+					case *ast.ExprStmt:
+						if call, ok := x.X.(*ast.CallExpr); ok {
+							if (isBuiltinCall(info, call, "copy") || isBuiltinCall(info, call, "clear")) && len(call.Args) > 0 {
+								isStore = true
+							} else if !c.e.ef.callPure(call) {
+								isStore = true // an unrecognised impure call
+							}
+						}
+					}
+					if isStore {
+						evMap[n] = []int{evNS}
+					}
+				}
+			}
 			res := runPaths(g, names,
 				func(b *cfg.Block, i int, n ast.Node) []int { return evMap[n] },
 				func(b *cfg.Block, succ int) uint8 {
@@ -298,6 +338,10 @@ func ruleR03R04(c *Ctx) {
 				})
 			accepted := func(s pstate) bool {
 				n := s.n
+				if n[evNS] > 0 && n[evOV] == 0 {
+					return false // node memory written on a path that does not split
+				}
+				n[evNS] = 0
 				switch {
 				case n[evBAD] > 0:
 					return false
@@ -324,9 +368,20 @@ func ruleR03R04(c *Ctx) {
 					pos = c.m.pos(b.Nodes[len(b.Nodes)-1].Pos())
 					where = "return"
 				}
+				seenDesc := map[string]bool{}
 				for _, s := range states {
 					nExits++
-					desc := res.describe(s)
+					proj := s
+					proj.n[evNS] = 0 // node stores are judged by accepted(), they do not name the path
+					desc := res.describe(proj)
+					dk := fmt.Sprint(desc, s.flags, accepted(s))
+					if seenDesc[dk] {
+						continue
+					}
+					seenDesc[dk] = true
+					if !accepted(s) && s.n[evNS] > 0 && s.n[evOV] == 0 {
+						desc += "+node-store-without-split"
+					}
 					switch {
 					case s.flags&flagLX != 0 && s.n == [maxEvents]uint8{}:
 						c.r.ok("R03", fmt.Sprintf("%s.Insert loop-exit %s", tk.Name, desc), pos,
@@ -425,9 +480,9 @@ func ruleR03R04(c *Ctx) {
 					okState := n == [maxEvents]uint8{evUN: 1, evSZ: 1, evRT: 1} || n == [maxEvents]uint8{evRF: 1}
 					key := fmt.Sprintf("%s.Delete exit %s", tk.Name, desc)
 					if okState {
-						c.r.ok("R04", key, pos, "accepted: one unlink, one decrement, true – or nothing and false", append(props, "C15")...)
+						c.r.ok("R04", key, pos, "accepted: one unlink, one decrement, true – or nothing and false", append(props, "C15", "C17")...)
 					} else {
-						o := c.r.bad("R04", key, pos, "Delete path ends with "+desc+": accepted are {UNLINK,SIZE-,return-true} and {return-false}", append(props, "C15")...)
+						o := c.r.bad("R04", key, pos, "Delete path ends with "+desc+": accepted are {UNLINK,SIZE-,return-true} and {return-false}", append(props, "C15", "C17")...)
 						o.Path = res.witness(b, res.entryOf[pkey{b.Index, s}])
 					}
 				}
